@@ -36,7 +36,9 @@ Abs(i) == IF i < 0 THEN -i ELSE i
 Numeric(v) == v[1] = "N" \/ v[1] = "B"
 Close(a, b) ==
   IF Numeric(a) /\ Numeric(b)
-  THEN IF tol = 0 THEN a[2] = b[2] ELSE Abs(a[2] - b[2]) <= tol
+  THEN IF tol = 0                    \* tolerance None: relative 1e-5 (math.isclose)
+       THEN Abs(a[2] - b[2]) <= (IF Abs(a[2]) >= Abs(b[2]) THEN Abs(a[2]) ELSE Abs(b[2])) \div 100000
+       ELSE Abs(a[2] - b[2]) <= tol
   ELSE a = b
 
 (* _gen_graph(addr): build the missing ancestors, stored results for new    *)
